@@ -1,25 +1,45 @@
 (* C15: the task ledger of a node.  Every task the model accepts is answered exactly once; nothing is
    dropped; a release answers everything the leader holds.  Proofs only; statements are repeated in
-   Props/C15.v.  Requires only the model files and the inversion tactics of Node/LogFacts.v.
+   Props/C15.v.  Requires the model files, the inversion tactics of Node/LogFacts.v and the round trip of
+   the configuration codec (Codec/MessagesProofs.v).
 
    Layout: per-handler ledgers (the Led_ lemmas), the outer loop (transition_spec), the case analysis over the
    events (step_fin), the theorems task_ledger / run_ledger / answered_at_most_once /
-   release_leaves_nothing_pending, a concrete history meeting every hypothesis (ex_history), and the
-   counterexamples that justify the hypotheses.
+   release_leaves_nothing_pending, two concrete histories meeting every hypothesis (ex_history;
+   ex2_history with a changeConfig task whose action is carried out), and the counterexamples that
+   justify the hypotheses.
 
-   What [fresh] excludes (machine-checked counterexamples cex_... in the last section, for the first
-   three clauses):
+   What [fresh] excludes (machine-checked counterexamples cex_... in the last section):
      - ELeader events on a node that is not leader ([enabled]): such a node does not take them;
      - ERestart of a node with pending tasks: the process died, its tasks died with it;
      - LWaitStable / LTransfer submitted with the reserved task id 0: the model reports such a task
        on some paths and not on others (ids are a modelling device, 0 is reserved for internal entries);
-     - LChangeConfig with a non-zero id whose configuration carries membership actions: the id can be
-       handed to do_change_config more than once (LedT counts k submissions); only the stable case
-       and the id 0 are covered (Led_on_change_config). *)
+     - LChangeConfig tid c with tid <> 0 and membership actions in c is covered under
+       [covered_change s c] (Led_on_change_config_act):
+         wf_config c            c is a value Go's types allow (distinct ids, fields in range), so that the
+                                configuration appended for an action is read back unchanged; not
+                                claimed necessary;
+         leader_votes s         the leader is a voter unless a transfer is in progress
+                                (cex_change_config_nonvoter: answered twice otherwise);
+         c_index Latest <= lastLogIndex   (cex_change_config_index: answered twice otherwise);
+         no_solo c nid = true   no single action of c (demote/remove of the only other voter, removal
+                                of a non-voter from a one-voter cluster) leaves the leader as the only
+                                voter.  Then the configuration appended for the first ready action
+                                stays uncommitted until the call returns, canChangeConfig is false for
+                                the remaining actions and the index test of onChangeConfig sees the
+                                change.  Otherwise the entry commits inside storeEntry, the task is
+                                answered there, and canChangeConfig is true again while
+                                checkConfigActions is still visiting the replications with the stale
+                                submitted configuration: cex_change_config_solo shows the task answered
+                                twice for a Demote when the oracle o_order repeats an id (task_ledger
+                                quantifies over every oracle and [fresh] does not see it).  For an
+                                oracle without repetitions, and for Remove/ForceRemove, no
+                                counterexample is known: these cases are simply not covered.
+       The id 0 and configurations without actions need none of this (Led_on_change_config). *)
 From Coq Require Import List NArith ZArith Bool Lia Arith Permutation.
 From RecordUpdate Require Import RecordUpdate.
-From Verif Require Import Base.Bytes Codec.Messages Node.Types Node.Handlers Node.Leader Node.Snap Node.Step Node.Run
-  Node.LogFacts.
+From Verif Require Import Base.Bytes Codec.Parser Codec.Messages Codec.MessagesProofs
+  Node.Types Node.Handlers Node.Leader Node.Snap Node.Step Node.Run Node.LogFacts.
 Import ListNotations.
 Open Scope N_scope.
 
@@ -70,13 +90,48 @@ Definition submitted (ev : nevent) : list N :=
   | _ => []
   end.
 
-(* events the ledger does not cover; each clause is justified by a counterexample below *)
+(* ---------------------------------------------------------------- a changeConfig task with membership actions *)
+(* the configuration checkConfigActions hands to doChangeConfig for the leader's own action *)
+Definition cand_self (c : config) (me : N) : option config :=
+  let n := cfg_node0 c me in
+  if n_action n =? ActNone then None
+  else if n_action n =? ActDemote then Some (cfg_set_node c (with_voter_action n false ActNone))
+  else Some (cfg_del_node c me).
+(* ... and checkConfigAction for node id *)
+Definition cand (c : config) (id : N) : option config :=
+  let n := cfg_node0 c id in
+  let action := next_action n in
+  if action =? ActNone then None
+  else if action =? ActPromote then Some (cfg_set_node c (with_voter_action n true ActNone))
+  else if (action =? ActRemove) || (action =? ActForceRemove) then Some (cfg_del_node c id)
+  else Some (cfg_set_node c (with_voter_action n false (if n_action n =? ActDemote then ActNone else n_action n))).
+(* a leader of this configuration commits on its own *)
+Definition solo (c : config) (me : N) : bool := (num_voters c =? 1) && is_voter c me.
+Definition no_solo (c : config) (me : N) : bool :=
+  forallb (fun n => match cand c (n_id n) with Some cx => negb (solo cx me) | None => true end) (c_nodes c).
+
+(* the part of wf_config that makes a node list survive encode/decode *)
+Definition nodes_ok (ns : list node) : Prop :=
+  Forall wf_node ns /\ NoDup (map n_id ns) /\ wfstr (enc_config_data ns).
+
+(* unless a transfer is in progress (then nothing is appended at all) the leader is a voter of its
+   configuration *)
+Definition leader_votes (s : nstate) : Prop :=
+  match st_ldr s with Some l => ld_tr_active l = false -> ld_voter l = true | None => True end.
+
+(* the changeConfig tasks with membership actions the ledger covers: the configuration is what Go's
+   types guarantee (distinct ids, fields in range: it survives encode/decode), the leader is a voter,
+   Latest was read from the log, and no single action of c leaves the leader as the only voter *)
+Definition covered_change (s : nstate) (c : config) : Prop :=
+  wf_config c /\ leader_votes s /\ c_index (st_latest s) <= st_lastidx s /\ no_solo c (st_nid s) = true.
+
+(* events the ledger does not cover; the clauses are justified by the counterexamples below *)
 Definition admissible (s : nstate) (ev : nevent) : Prop :=
   match ev with
   | ERestart _ => pending s = []
   | ELeader (LWaitStable tid) => tid <> 0
   | ELeader (LTransfer tid _) => tid <> 0
-  | ELeader (LChangeConfig tid c) => tid = 0 \/ is_stable c = true
+  | ELeader (LChangeConfig tid c) => tid = 0 \/ is_stable c = true \/ covered_change s c
   | _ => True
   end.
 
@@ -631,6 +686,489 @@ Proof.
     + unfold wret in Hb. inversion Hb; subst. split; [reflexivity|]. rewrite rt_out_app, B. reflexivity.
 Qed.
 
+(* ================================================================ a submitted configuration with actions *)
+(* checkConfigActions hands the task to doChangeConfig for the first action that is ready.  Under
+   [covered_change] the configuration appended for it stays uncommitted until the call returns
+   (the leader cannot commit alone), canChangeConfig is false for the remaining actions, and
+   onChangeConfig sees the index of Latest changed and does not append the submitted one. *)
+(* ---------------------------------------------------------------- nodes_ok is kept by the actions *)
+Lemma find_node_some id l n : find_node id l = Some n -> In n l /\ n_id n = id.
+Proof.
+  induction l as [|m r IH]; [discriminate|]. cbn [find_node]. destruct (n_id m =? id) eqn:E.
+  - intros H; inversion H; subst. apply N.eqb_eq in E. split; [left; reflexivity | exact E].
+  - intros H. destruct (IH H) as [A B]. split; [right; exact A | exact B].
+Qed.
+
+Lemma enc_node_wva_len n v a : length (enc_node (with_voter_action n v a)) = length (enc_node n).
+Proof. unfold enc_node, with_voter_action. cbn [n_id n_addr n_voter n_data n_action]. rewrite !app_length. reflexivity. Qed.
+
+Lemma put_node_found n' l n :
+  find_node (n_id n') l = Some n ->
+  map n_id (put_node n' l) = map n_id l /\
+  (length (enc_node n') = length (enc_node n) ->
+   length (concat (map enc_node (put_node n' l))) = length (concat (map enc_node l))) /\
+  (forall P : node -> Prop, P n' -> Forall P l -> Forall P (put_node n' l)).
+Proof.
+  induction l as [|m r IH]; [discriminate|]. cbn [find_node put_node]. destruct (n_id m =? n_id n') eqn:E.
+  - intros H; inversion H; subst m. apply N.eqb_eq in E. split; [cbn; congruence|]. split.
+    + intros L. cbn [map concat]. rewrite !app_length. lia.
+    + intros P Pn F. inversion F; subst. constructor; assumption.
+  - intros H. destruct (IH H) as (A & B & C). split; [cbn; congruence|]. split.
+    + intros L. cbn [map concat]. rewrite !app_length, (B L). reflexivity.
+    + intros P Pn F. inversion F; subst. constructor; auto.
+Qed.
+
+Lemma filter_nodes_ok (p : node -> bool) ns : nodes_ok ns -> nodes_ok (filter p ns).
+Proof.
+  intros (F & ND & W). split; [|split].
+  - apply Forall_forall. intros x I. apply filter_In in I. rewrite Forall_forall in F. apply F, I.
+  - clear F W. induction ns as [|m r IH]; [constructor|]. cbn [map] in ND. inversion ND; subst.
+    cbn [filter]. destruct (p m); [|auto]. cbn [map]. constructor; [|auto].
+    intros I. apply H1. apply in_map_iff in I. destruct I as (x & E & I). apply filter_In in I.
+    apply in_map_iff. exists x. split; [exact E | apply I].
+  - unfold wfstr, enc_config_data in *. rewrite app_length in *. unfold wU32 in *. rewrite le_enc_length in *.
+    assert (L : (length (concat (map enc_node (filter p ns))) <= length (concat (map enc_node ns)))%nat).
+    { clear. induction ns as [|m r IH]; [apply Nat.le_refl|]. cbn [filter]. destruct (p m); cbn [map concat]; rewrite ?app_length; lia. }
+    lia.
+Qed.
+
+Lemma set_node_ok c id v a :
+  nodes_ok (c_nodes c) -> cfg_node c id <> None -> (a = ActNone \/ a = n_action (cfg_node0 c id)) ->
+  nodes_ok (c_nodes (cfg_set_node c (with_voter_action (cfg_node0 c id) v a))).
+Proof.
+  intros (F & ND & W) NN HA. unfold cfg_node0 in *. unfold cfg_node in *.
+  destruct (find_node id (c_nodes c)) as [n|] eqn:FN; [|congruence].
+  destruct (find_node_some _ _ _ FN) as [I E].
+  assert (FN' : find_node (n_id (with_voter_action n v a)) (c_nodes c) = Some n) by (cbn; rewrite E; exact FN).
+  destruct (put_node_found _ _ _ FN') as (A & B & C).
+  unfold cfg_set_node. cbn [c_nodes]. split; [|split].
+  - apply C; [|exact F]. rewrite Forall_forall in F. destruct (F n I) as (W1 & W2 & W3 & W4).
+    unfold wf_node, with_voter_action. cbn. repeat split; auto.
+    destruct HA as [->| ->]; [unfold u8, ActNone; lia | exact W4].
+  - rewrite A. exact ND.
+  - unfold wfstr, enc_config_data in *. rewrite app_length in *. unfold wU32 in *. rewrite le_enc_length in *.
+    rewrite (B (enc_node_wva_len n v a)). exact W.
+Qed.
+
+Lemma next_action_zero : next_action zero_node = ActNone. Proof. reflexivity. Qed.
+
+Lemma cand_ok c id cx : nodes_ok (c_nodes c) -> cand c id = Some cx -> nodes_ok (c_nodes cx).
+Proof.
+  intros OK. unfold cand.
+  assert (NN : next_action (cfg_node0 c id) <> ActNone -> cfg_node c id <> None).
+  { unfold cfg_node0. destruct (cfg_node c id); [discriminate|]. rewrite next_action_zero. intros H; exfalso; apply H; reflexivity. }
+  destruct (next_action (cfg_node0 c id) =? ActNone) eqn:E0; [discriminate|]. apply N.eqb_neq in E0. specialize (NN E0).
+  destruct (_ =? ActPromote).
+  { intros H; inversion H; subst. apply set_node_ok; auto. }
+  destruct (_ || _).
+  { intros H; inversion H; subst. apply filter_nodes_ok. exact OK. }
+  intros H; inversion H; subst. apply set_node_ok; auto. destruct (_ =? ActDemote); auto.
+Qed.
+
+Lemma cand_self_ok c me cx : nodes_ok (c_nodes c) -> cand_self c me = Some cx -> nodes_ok (c_nodes cx).
+Proof.
+  intros OK. unfold cand_self.
+  assert (NN : n_action (cfg_node0 c me) <> ActNone -> cfg_node c me <> None).
+  { unfold cfg_node0. destruct (cfg_node c me); [discriminate|]. cbn. intros H; exfalso; apply H; reflexivity. }
+  destruct (n_action (cfg_node0 c me) =? ActNone) eqn:E0; [discriminate|]. apply N.eqb_neq in E0. specialize (NN E0).
+  destruct (_ =? ActDemote).
+  { intros H; inversion H; subst. apply set_node_ok; auto. }
+  intros H; inversion H; subst. apply filter_nodes_ok. exact OK.
+Qed.
+
+(* the leader's own action leaves it without a vote *)
+Lemma cand_self_not_solo c me cx : cand_self c me = Some cx -> solo cx me = false.
+Proof.
+  unfold cand_self, solo, is_voter.
+  destruct (n_action (cfg_node0 c me) =? ActNone) eqn:E0; [discriminate|]. apply N.eqb_neq in E0.
+  assert (FN : exists n, find_node me (c_nodes c) = Some n /\ cfg_node0 c me = n).
+  { unfold cfg_node0, cfg_node in *. destruct (find_node me (c_nodes c)) as [n|]; [eauto|]. exfalso; apply E0; reflexivity. }
+  destruct FN as (n & FN & EN). rewrite EN.
+  destruct (_ =? ActDemote); intros H; inversion H; subst cx; clear H; apply andb_false_intro2.
+  - unfold cfg_node, cfg_set_node. cbn [c_nodes].
+    assert (K : forall l, find_node (n_id n) l = Some n ->
+              find_node (n_id n) (put_node (with_voter_action n false ActNone) l) = Some (with_voter_action n false ActNone)).
+    { clear. induction l as [|m r IH]; [discriminate|]. cbn [find_node put_node with_voter_action n_id].
+      destruct (n_id m =? n_id n) eqn:E; intros H.
+      - cbn [find_node n_id]. rewrite N.eqb_refl. reflexivity.
+      - cbn [find_node]. rewrite E. exact (IH H). }
+    destruct (find_node_some _ _ _ FN) as [_ EI]. subst me.
+    rewrite (K _ FN). reflexivity.
+  - unfold cfg_node, cfg_del_node. cbn [c_nodes].
+    assert (K : forall l, find_node me (filter (fun n0 => negb (n_id n0 =? me)) l) = None).
+    { induction l as [|m r IH]; [reflexivity|]. cbn [filter]. destruct (n_id m =? me) eqn:E; cbn [negb]; [exact IH|].
+      cbn [find_node]. rewrite E. exact IH. }
+    rewrite K. reflexivity.
+Qed.
+
+Lemma codec_roundtrip ns i t :
+  nodes_ok ns -> config_of_entry (mkEntry i t entryConfig (enc_config_data ns)) = Some (mkConfig ns i t).
+Proof.
+  intros (F & ND & W). unfold config_of_entry. cbn [e_typ e_data e_index e_term]. rewrite N.eqb_refl.
+  rewrite <- (app_nil_r (enc_config_data ns)). rewrite config_data_sound by assumption. reflexivity.
+Qed.
+
+Section Act.
+Variable opt : options.
+
+Definition bkl (l : ldrst) := (ld_voter l, ld_numvoters l, ld_start l, ld_tr_active l).
+Definition bk (s : nstate) :=
+  (st_nid s, st_lastidx s, st_latest s, st_committed s, st_commit s, option_map bkl (st_ldr s)).
+Definition QS (s s' : nstate) : Prop := bk s' = bk s /\ lk s' = lk s /\ sk s' = sk s.
+
+Lemma QS_refl s : QS s s. Proof. repeat split. Qed.
+Lemma QS_trans a b c : QS a b -> QS b c -> QS a c.
+Proof. unfold QS. intros (A1 & A2 & A3) (B1 & B2 & B3). repeat split; congruence. Qed.
+
+Lemma bk_upd_ldr s f : (forall l, bkl (f l) = bkl l) -> bk (upd_ldr s f) = bk s.
+Proof. intros H. unfold upd_ldr, bk. destruct (st_ldr s) eqn:E; cbn; [rewrite H | rewrite E]; reflexivity. Qed.
+Lemma QS_upd_repl s i f : QS s (upd_repl s i f).
+Proof. split; [apply bk_upd_ldr; reflexivity|]. split; [apply lk_upd_repl | apply sk_upd_repl]. Qed.
+
+Lemma bk_ldr s s' l : bk s' = bk s -> st_ldr s = Some l ->
+  exists l', st_ldr s' = Some l' /\ bkl l' = bkl l.
+Proof.
+  unfold bk. intros H Hl. inversion H as [[H1 H2 H3 H4 H5 H6]]. rewrite Hl in H6.
+  destruct (st_ldr s') as [l'|]; [|discriminate]. cbn [option_map] in H6. exists l'. split; [reflexivity | congruence].
+Qed.
+
+Lemma bk_can_change s s' l l' : bk s' = bk s -> st_ldr s = Some l -> st_ldr s' = Some l' ->
+  can_change_config s' l' = can_change_config s l.
+Proof.
+  unfold bk. intros H Hl Hl'. inversion H as [[H1 H2 H3 H4 H5 H6]]. rewrite Hl, Hl' in H6. cbn in H6.
+  inversion H6 as [[E1 E2 E3 E4]].
+  unfold can_change_config, configs_committed, transfer_in_progress. rewrite H3, H4, H5, E3, E4. reflexivity.
+Qed.
+
+
+Lemma bk_put_ldr s l l' : st_ldr s = Some l -> bkl l' = bkl l -> bk (put_ldr s l') = bk s.
+Proof. intros Hl E. unfold bk, put_ldr. cbn. rewrite Hl. cbn. rewrite E. reflexivity. Qed.
+Lemma bk_begin_finished_rounds s : bk (begin_finished_rounds s) = bk s.
+Proof. apply bk_upd_ldr. reflexivity. Qed.
+Lemma bk_notify_flr s b s' : notify_flr s b = Done s' -> bk s' = bk s.
+Proof. unfold notify_flr. intros H. repeat inv1w. eapply bk_put_ldr; [eassumption | reflexivity]. Qed.
+Lemma bk_add_replication s n s' : add_replication s n = Done s' -> bk s' = bk s.
+Proof. unfold add_replication. intros H. repeat inv1w. eapply bk_put_ldr; [eassumption | reflexivity]. Qed.
+
+Lemma bk_apply_queue q : forall s out r, apply_queue s q out = Done r -> bk (fst r) = bk s.
+Proof.
+  induction q as [|ne r IH]; intros s out x H; cbn [apply_queue] in H.
+  - inversion H; reflexivity.
+  - destruct (negb _); [discriminate|]. apply IH in H. rewrite H. destruct (is_log_entry _); reflexivity.
+Qed.
+
+Lemma bk_leader_apply_committed s w : leader_apply_committed s = Done w -> bk (fst w) = bk s.
+Proof.
+  unfold leader_apply_committed. intros H.
+  apply obind_inv in H. destruct H as (l & Hl & H). apply get_ldr_inv in Hl.
+  destruct (split_queue (st_commit s) (ld_queue l)) as [head rest].
+  assert (B : bk (put_ldr s (l <| ld_queue := rest |>)) = bk s) by (eapply bk_put_ldr; [eassumption | reflexivity]).
+  repeat (first [ match goal with
+                  | H : apply_queue _ _ _ = Done (_, _) |- _ => apply bk_apply_queue in H; cbn [fst] in H
+                  end
+                | inv1w ]); cbn [fst]; try congruence;
+    match goal with HB : bk ?n = bk _ |- bk ?n = _ => rewrite HB end;
+    try match goal with |- bk (if ?b then _ else _) = _ => destruct b end; exact B.
+Qed.
+
+(* nothing is handed to doChangeConfig while a configuration change is not allowed *)
+Definition blocked (s : nstate) : Prop := forall l, st_ldr s = Some l -> can_change_config s l = false.
+
+Lemma blocked_QS s s' : QS s s' -> blocked s -> blocked s'.
+Proof.
+  intros (B & _ & _) BL l' Hl'. destruct (st_ldr s) as [l|] eqn:Hl.
+  - rewrite (bk_can_change _ _ _ _ B Hl Hl'). apply BL. exact Hl.
+  - unfold bk in B. inversion B as [[H1 H2 H3 H4 H5 H6]]. rewrite Hl, Hl' in H6. discriminate.
+Qed.
+
+Lemma cca_inv f s tid c id w :
+  check_config_action opt f s tid c id = Done w ->
+  (QS s (fst w) /\ rt (snd w) = []) \/
+  (exists f' s1 l1 cx, QS s s1 /\ st_ldr s1 = Some l1 /\ can_change_config s1 l1 = true /\ cand c id = Some cx /\
+       do_change_config opt f' s1 tid cx = Done w).
+Proof.
+  destruct f as [|f]; [discriminate|]. cbn [check_config_action]. intros H. refold opt H.
+  apply obind_inv in H. destruct H as (l & Hl & H). apply get_ldr_inv in Hl.
+  destruct (find_repl id (ld_repls l)) as [rp|]; [|discriminate].
+  cbv zeta in H. unfold cand.
+  destruct (next_action (cfg_node0 c id) =? ActNone).
+  { left. inversion H; subst. split; [apply QS_refl | reflexivity]. }
+  match type of H with (if ?b then wret ?x else _) = _ => set (s1 := x) in H; destruct b end.
+  { left. inversion H; subst. split; [apply QS_upd_repl | reflexivity]. }
+  apply obind_inv in H. destruct H as (l1 & Hl1 & H). apply get_ldr_inv in Hl1.
+  destruct (can_change_config s1 l1) eqn:CC; cbn [negb] in H.
+  2:{ left. inversion H; subst. split; [apply QS_upd_repl | reflexivity]. }
+  assert (Q : QS s s1) by apply QS_upd_repl.
+  destruct (next_action (cfg_node0 c id) =? ActPromote).
+  { right. exists f, s1, l1. eexists. repeat split; try apply Q; try eassumption. }
+  destruct (next_action (cfg_node0 c id) =? ActRemove).
+  { cbn [orb]. destruct (_ <=? _).
+    - right. exists f, s1, l1. eexists. repeat split; try apply Q; try eassumption.
+    - left. inversion H; subst. split; [apply QS_upd_repl | reflexivity]. }
+  destruct (next_action (cfg_node0 c id) =? ActForceRemove).
+  { cbn [orb]. right. exists f, s1, l1. eexists. repeat split; try apply Q; try eassumption. }
+  cbn [orb]. right. exists f, s1, l1. eexists. repeat split; try apply Q; try eassumption.
+Qed.
+
+Lemma cca_blocked f s tid c id w :
+  blocked s -> check_config_action opt f s tid c id = Done w -> QS s (fst w) /\ rt (snd w) = [].
+Proof.
+  intros BL H. apply cca_inv in H. destruct H as [H|(f' & s1 & l1 & cx & Q & Hl1 & CC & _)]; [exact H|].
+  rewrite (blocked_QS _ _ Q BL _ Hl1) in CC. discriminate.
+Qed.
+
+Definition ccas_step (f : nat) (tid : N) (c1 : config) :=
+  (fun (acc : outcome W) (id : N) =>
+      s <~~ acc ;;
+      l <~ get_ldr s ;;
+      match find_repl id (ld_repls l) with
+      | None => wret s
+      | Some _ => check_config_action opt f s tid c1 id
+      end).
+
+Lemma ccas_fold_blocked f tid c1 visit : forall s0 o0 w,
+  blocked s0 -> fold_left (ccas_step f tid c1) visit (Done (s0, o0)) = Done w ->
+  QS s0 (fst w) /\ rt (snd w) = rt o0.
+Proof.
+  intros s0 o0 w BL. revert w.
+  apply fold_left_inv.
+  - intros w H; inversion H; subst. split; [apply QS_refl | reflexivity].
+  - intros acc id Hacc w Hw. unfold ccas_step in Hw.
+    apply wbind_inv in Hw. destruct Hw as (sa & oa & sb & ob & Ea & Hb & ->). subst acc.
+    destruct (Hacc _ eq_refl) as [QA RA]. cbn [fst snd] in *.
+    apply obind_inv in Hb. destruct Hb as (l & _ & Hb).
+    destruct (find_repl id (ld_repls l)).
+    + apply cca_blocked in Hb; [|eapply blocked_QS; eassumption]. destruct Hb as [QB RB]. cbn [fst snd] in *.
+      split; [eapply QS_trans; eassumption|]. rewrite rt_out_app, RA, RB, app_nil_r. reflexivity.
+    + inversion Hb; subst. split; [exact QA|]. rewrite rt_out_app, RA, app_nil_r. reflexivity.
+Qed.
+
+Lemma ccas_blocked f s tid c w :
+  blocked s -> check_config_actions opt f s tid c = Done w -> QS s (fst w) /\ rt (snd w) = [].
+Proof.
+  intros BL. destruct f as [|f]; [discriminate|]. cbn [check_config_actions]. intros H. refold opt H.
+  apply obind_inv in H. destruct H as (l & Hl & H). apply get_ldr_inv in Hl.
+  rewrite (BL _ Hl) in H. cbn [andb] in H. cbn [obind] in H.
+  apply obind_inv in H. destruct H as (l1 & _ & H).
+  apply (ccas_fold_blocked f tid c _ s no_out w BL) in H. exact H.
+Qed.
+
+(* the projection after leader.changeConfig installed c *)
+Definition bk_after (s : nstate) (l : ldrst) (c : config) :=
+  (st_nid s, st_lastidx s, c, st_latest s, st_commit s,
+   Some (is_voter c (st_nid s), num_voters c, ld_start l, ld_tr_active l)).
+
+Lemma lcc_closes f s l c w :
+  st_ldr s = Some l -> c_index c <> c_index (st_latest s) ->
+  leader_change_config opt f s c = Done w -> bk (fst w) = bk_after s l c.
+Proof.
+  intros Hl NE. destruct f as [|f]; [discriminate|]. cbn [leader_change_config]. intros H. refold opt H.
+  apply obind_inv in H. destruct H as (l0 & Hl0 & H). apply get_ldr_inv in Hl0.
+  assert (l0 = l) by congruence. subst l0. clear Hl0.
+  apply obind_inv in H. destruct H as (s3 & H3 & H).
+  match type of H3 with fold_left ?F _ (Done ?S2) = _ =>
+    assert (HF : forall x, fold_left F (c_nodes c) (Done S2) = Done x -> bk x = bk S2) end.
+  { apply fold_left_inv.
+    - intros x Hx; inversion Hx; reflexivity.
+    - intros acc n Hacc x Hx.
+      apply obind_inv in Hx. destruct Hx as (sa & Ea & Hx). subst acc. specialize (Hacc _ eq_refl).
+      destruct (n_id n =? st_nid sa). { inversion Hx; subst. exact Hacc. }
+      apply obind_inv in Hx. destruct Hx as (la & _ & Hx).
+      destruct (find_repl _ _).
+      + inversion Hx; subst. rewrite <- Hacc. apply bk_upd_ldr. reflexivity.
+      + apply bk_add_replication in Hx. congruence. }
+  apply HF in H3. clear HF.
+  assert (B3 : bk s3 = bk_after s l c).
+  { rewrite H3. rewrite bk_upd_ldr by reflexivity.
+    unfold bk_after, bk, change_config, is_voter. destruct (_ && _); cbn; rewrite ?Hl; reflexivity. }
+  clear H3.
+  apply ccas_blocked in H; [destruct H as [(B & _) _]; congruence|].
+  intros l3 Hl3. unfold can_change_config, configs_committed.
+  unfold bk_after, bk in B3. inversion B3 as [[E1 E2 E3 E4 E5 E6]]. rewrite E3, E4.
+  apply N.eqb_neq in NE. rewrite NE. reflexivity.
+Qed.
+
+Lemma dcc_closes f s l tid cx w :
+  st_ldr s = Some l -> ld_tr_active l = false -> ld_voter l = true ->
+  nodes_ok (c_nodes cx) -> solo cx (st_nid s) = false ->
+  c_index (st_latest s) <> st_lastidx s + 1 ->
+  do_change_config opt f s tid cx = Done w ->
+  configs_committed (fst w) = false /\ c_index (st_latest (fst w)) = st_lastidx s + 1.
+Proof.
+  intros Hl TA LV OK NS F2. assert (F2b : st_lastidx s + 1 <> c_index (st_latest s)) by congruence.
+  destruct f as [|f]; [discriminate|]. cbn [do_change_config].
+  destruct f as [|f]; [discriminate|]. cbn [store_entry].
+  intros H. refold opt H.
+  apply wbind_inv in H. destruct H as (s1 & o1 & s2 & o2 & H1 & H2 & ->). cbn [fst].
+  cbn [nq_typ nq_data nq_tid e_index e_typ e_data e_term] in H1.
+  (* the loop: the entry is appended and the configuration installed *)
+  assert (B1 : bk s1 = bk_after (set_log s (st_logprev s) (st_log s) (st_lastidx s + 1) (st_term s)) l
+                                (mkConfig (c_nodes cx) (st_lastidx s + 1) (st_term s))).
+  { apply obind_inv in H1. destruct H1 as (l0 & Hl0 & H1). apply get_ldr_inv in Hl0.
+    assert (l0 = l) by congruence. subst l0. clear Hl0.
+    unfold transfer_in_progress in H1. rewrite TA, LV in H1. cbn [negb] in H1.
+    change (is_log_entry entryConfig) with true in H1. cbv iota in H1.
+    apply obind_inv in H1. destruct H1 as (sa & HA & H1).
+    rewrite N.eqb_refl in H1. rewrite (codec_roundtrip _ _ _ OK) in H1.
+    apply wbind_inv in H1. destruct H1 as (s3 & o3 & s4 & o4 & H3 & H4 & E). inversion H4; subst s4 o4. clear H4.
+    inversion E; subst s1 o1. clear E.
+    unfold append_entry in HA. cbn [e_index e_term] in HA.
+    match type of HA with (if ?b then _ else _) = _ => destruct b end; [|discriminate].
+    inversion HA; subst sa. clear HA.
+    eapply lcc_closes in H3; [| reflexivity | cbn; exact F2b].
+    exact H3. }
+  clear H1.
+  apply obind_inv in H2. destruct H2 as (l1 & Hl1 & H2).
+  apply wbind_inv in H2. destruct H2 as (s3 & o3 & s4 & o4 & H3 & H4 & E). inversion E; subst s4 o2. clear E.
+  assert (B3 : bk s3 = bk s1).
+  { destruct (ld_queue l1) as [|ne q]; [inversion H3; reflexivity|].
+    destruct (negb _); [apply bk_leader_apply_committed in H3; exact H3 | inversion H3; reflexivity]. }
+  clear H3. rewrite B1 in B3. clear B1.
+  assert (L3 : st_lastidx s3 = st_lastidx s + 1) by (unfold bk, bk_after in B3; inversion B3; reflexivity).
+  rewrite L3 in H4. assert (LT : (st_lastidx s <? st_lastidx s + 1) = true) by (apply N.ltb_lt; lia).
+  rewrite LT in H4. clear LT.
+  apply obind_inv in H4. destruct H4 as (s5 & H5 & H4).
+  apply bk_notify_flr in H5. rewrite bk_begin_finished_rounds, B3 in H5. clear B3.
+  apply obind_inv in H4. destruct H4 as (l5 & Hl5 & H4). apply get_ldr_inv in Hl5.
+  unfold bk, bk_after in H5. rewrite Hl5 in H5. cbn [option_map bkl] in H5.
+  injection H5 as E1 E2 E3 E4 E5 E6 E7 E8 E9.
+  assert (SOLO : (ld_numvoters l5 =? 1) && ld_voter l5 = false).
+  { rewrite E6, E7. exact NS. }
+  rewrite SOLO in H4. inversion H4; subst s2 o4.
+  unfold configs_committed. rewrite E3, E4. cbn [c_index]. split; [|reflexivity].
+  apply N.eqb_neq. exact F2b.
+Qed.
+
+Lemma bk_fields s s' : bk s' = bk s ->
+  st_nid s' = st_nid s /\ st_lastidx s' = st_lastidx s /\ st_latest s' = st_latest s /\
+  configs_committed s' = configs_committed s.
+Proof.
+  unfold bk, configs_committed. intros H. injection H as E1 E2 E3 E4 E5 E6. rewrite E3, E4. auto.
+Qed.
+
+Lemma Led_pre_QS s s1 sub w : QS s s1 -> Led s1 sub w -> Led s sub w.
+Proof. intros (_ & L & S). unfold Led, LedC. rewrite L, S. auto. Qed.
+
+Lemma Led_post_QS s sub sa oa sb ob :
+  Led s sub (sa, oa) -> QS sa sb -> rt ob = [] -> Led s sub (sb, out_app oa ob).
+Proof.
+  intros H (_ & L & S) R. unfold Led, LedC in *. cbn [fst snd] in *.
+  rewrite rt_out_app, R, app_nil_r, L, S. exact H.
+Qed.
+
+Lemma Led_prefix_quiet s sub oa sb ob : rt oa = [] -> Led s sub (sb, ob) -> Led s sub (sb, out_app oa ob).
+Proof. intros R H. unfold Led, LedC in *. cbn [fst snd] in *. rewrite rt_out_app, R. exact H. Qed.
+
+(* nothing carried out yet / one action carried out, the configuration it appended is in flight *)
+Definition NFd (s : nstate) (w : W) : Prop := QS s (fst w) /\ rt (snd w) = [].
+Definition FDd (s : nstate) (tid : N) (w : W) : Prop :=
+  Led s (one tid) w /\ configs_committed (fst w) = false /\ c_index (st_latest (fst w)) = st_lastidx s + 1.
+
+Lemma fire_closes f s0 l0 s1 l1 tid cx w :
+  st_ldr s0 = Some l0 -> (ld_tr_active l0 = false -> ld_voter l0 = true) ->
+  c_index (st_latest s0) <= st_lastidx s0 ->
+  QS s0 s1 -> st_ldr s1 = Some l1 -> can_change_config s1 l1 = true ->
+  nodes_ok (c_nodes cx) -> solo cx (st_nid s0) = false ->
+  do_change_config opt f s1 tid cx = Done w -> FDd s0 tid w.
+Proof.
+  intros Hl0 LV F2 Q Hl1 CC OK NS H. pose proof Q as (B & _ & _).
+  destruct (bk_fields _ _ B) as (E1 & E2 & E3 & _).
+  destruct (bk_ldr _ _ _ B Hl0) as (l1' & Hl1' & EL). assert (l1' = l1) by congruence. subst l1'.
+  unfold bkl in EL. injection EL as V1 V2 V3 V4.
+  unfold can_change_config, transfer_in_progress in CC.
+  apply andb_true_iff in CC. destruct CC as [_ CC]. apply negb_true_iff in CC.
+  split; [eapply Led_pre_QS; [exact Q | eapply Led_do_change_config; exact H]|].
+  rewrite <- E2. eapply dcc_closes; [exact Hl1 | exact CC | rewrite V1; apply LV; congruence | exact OK | congruence | | exact H].
+  rewrite E2, E3. lia.
+Qed.
+
+Lemma no_solo_cand c me id cx : no_solo c me = true -> cand c id = Some cx -> solo cx me = false.
+Proof.
+  unfold no_solo. rewrite forallb_forall. intros H C.
+  assert (FN : exists n, In n (c_nodes c) /\ n_id n = id).
+  { unfold cand, cfg_node0, cfg_node in C. destruct (find_node id (c_nodes c)) as [n|] eqn:FN.
+    - exists n. eapply find_node_some; eassumption.
+    - rewrite next_action_zero in C. cbn in C. discriminate. }
+  destruct FN as (n & I & E). specialize (H n I). rewrite E, C in H. apply negb_true_iff in H. exact H.
+Qed.
+
+Lemma ccas_once f s l tid c w :
+  st_ldr s = Some l -> (ld_tr_active l = false -> ld_voter l = true) -> c_index (st_latest s) <= st_lastidx s ->
+  nodes_ok (c_nodes c) -> no_solo c (st_nid s) = true ->
+  check_config_actions opt f s tid c = Done w -> NFd s w \/ FDd s tid w.
+Proof.
+  intros Hl LV F2 OK NS. destruct f as [|f]; [discriminate|]. cbn [check_config_actions]. intros H. refold opt H.
+  apply obind_inv in H. destruct H as (l0 & Hl0 & H). apply get_ldr_inv in Hl0.
+  assert (l0 = l) by congruence. subst l0. clear Hl0.
+  apply obind_inv in H. destruct H as (r & Hr & H). destruct r as [[s1 out1] c1].
+  assert (H1 : (NFd s (s1, out1) /\ c1 = c) \/ FDd s tid (s1, out1)).
+  { destruct (can_change_config s l && negb (n_action (cfg_node0 c (st_nid s)) =? ActNone)) eqn:CC.
+    - apply andb_true_iff in CC. destruct CC as [CC NA]. apply negb_true_iff in NA.
+      right.
+      assert (K : forall cx w0, cand_self c (st_nid s) = Some cx -> do_change_config opt f s tid cx = Done w0 -> FDd s tid w0).
+      { intros cx w0 CS D.
+        apply (fire_closes f s l s l tid cx w0 Hl LV F2 (QS_refl s) Hl CC);
+          [eapply cand_self_ok; eassumption | eapply cand_self_not_solo; eassumption | exact D]. }
+      unfold cand_self in K. rewrite NA in K.
+      destruct (n_action (cfg_node0 c (st_nid s)) =? ActDemote).
+      + apply obind_inv in Hr. destruct Hr as (w0 & D & Hr). inversion Hr; subst. eapply K; [reflexivity | exact D].
+      + destruct (_ || _); [|discriminate].
+        apply obind_inv in Hr. destruct Hr as (w0 & D & Hr). inversion Hr; subst. eapply K; [reflexivity | exact D].
+    - inversion Hr; subst. left. split; [split; [apply QS_refl | reflexivity] | reflexivity]. }
+  clear Hr. apply obind_inv in H. destruct H as (l1 & _ & H).
+  cut ((NFd s w /\ c1 = c) \/ FDd s tid w). { intros [[A _]|A]; auto. }
+  revert w H. apply fold_left_inv.
+  - intros w Hw; inversion Hw; subst. exact H1.
+  - clear H1. intros acc id Hacc w Hw.
+    apply wbind_inv in Hw. destruct Hw as (sa & oa & sb & ob & Ea & Hb & ->). subst acc.
+    specialize (Hacc _ eq_refl).
+    apply obind_inv in Hb. destruct Hb as (la & _ & Hb).
+    assert (Hb' : (QS sa sb /\ rt ob = []) \/
+                  (exists f' s1 l1 cx, QS sa s1 /\ st_ldr s1 = Some l1 /\ can_change_config s1 l1 = true /\
+                      cand c1 id = Some cx /\ do_change_config opt f' s1 tid cx = Done (sb, ob))).
+    { destruct (find_repl id (ld_repls la)); [apply cca_inv in Hb; exact Hb|].
+      inversion Hb; subst. left. split; [apply QS_refl | reflexivity]. }
+    clear Hb. destruct Hacc as [[[QA RA] EC]|(LA & CA & IA)]; cbn [fst snd] in *.
+    + destruct Hb' as [[QB RB]|(f' & s1' & l1' & cx & Q1 & Hl1' & CC & CD & D)].
+      * left. split; [|exact EC]. split; cbn [fst snd]; [eapply QS_trans; eassumption|].
+        rewrite rt_out_app, RA, RB. reflexivity.
+      * right. subst c1.
+        assert (FD : FDd s tid (sb, ob)).
+        { apply (fire_closes f' s l s1' l1' tid cx (sb, ob) Hl LV F2 (QS_trans _ _ _ QA Q1) Hl1' CC);
+            [eapply cand_ok; eassumption | eapply no_solo_cand; eassumption | exact D]. }
+        destruct FD as (L & C & I). split; [apply Led_prefix_quiet; assumption | split; assumption].
+    + right. destruct Hb' as [[QB RB]|(f' & s1' & l1' & cx & Q1 & Hl1' & CC & CD & D)].
+      * destruct QB as (BB & LB & SB). destruct (bk_fields _ _ BB) as (_ & _ & E3 & E4).
+        split; [apply Led_post_QS with sa; [exact LA | repeat split; assumption | exact RB]|].
+        cbn [fst]. rewrite E3, E4. split; assumption.
+      * exfalso. destruct Q1 as (B1 & _). destruct (bk_fields _ _ B1) as (_ & _ & _ & E4).
+        unfold can_change_config in CC. rewrite E4, CA in CC. discriminate.
+Qed.
+
+Lemma Led_on_change_config_act s l tid c w :
+  st_ldr s = Some l -> (ld_tr_active l = false -> ld_voter l = true) -> c_index (st_latest s) <= st_lastidx s ->
+  nodes_ok (c_nodes c) -> no_solo c (st_nid s) = true ->
+  on_change_config opt s tid c = Done w -> Led s (one tid) w.
+Proof.
+  intros Hl LV F2 OK NS. unfold on_change_config. intros H.
+  apply obind_inv in H. destruct H as (l0 & Hl0 & H).
+  repeat match type of H with
+         | (if ?b then wreply _ _ _ else _) = _ => destruct b; [apply Led_wreply in H; exact H|]
+         end.
+  apply wbind_inv in H. destruct H as (s1 & o1 & s2 & o2 & H1 & H2 & ->).
+  eapply ccas_once in H1; try eassumption.
+  destruct H1 as [[Q R]|(L & C & I)]; cbn [fst snd] in *.
+  - pose proof Q as (B & _). destruct (bk_fields _ _ B) as (_ & _ & E3 & _).
+    rewrite E3, N.eqb_refl in H2. apply Led_do_change_config in H2.
+    apply Led_prefix_quiet; [exact R|]. eapply Led_pre_QS; eassumption.
+  - assert (NE : (c_index (st_latest s1) =? c_index (st_latest s)) = false) by (apply N.eqb_neq; lia).
+    rewrite NE in H2. inversion H2; subst. apply Led_post_QS with s2; [exact L | apply QS_refl | reflexivity].
+Qed.
+End Act.
+
+Lemma wf_config_nodes_ok c : wf_config c -> nodes_ok (c_nodes c).
+Proof. intros (_ & _ & A & B & C). repeat split; assumption. Qed.
+
 (* ================================================================ the other leader events *)
 Lemma fr_check_quorum opt s b s' : check_quorum opt s b = Done s' -> FR s s'.
 Proof.
@@ -691,17 +1229,22 @@ Proof.
 Qed.
 
 Lemma Led_on_change_config opt s tid c w :
-  tid = 0 \/ is_stable c = true -> on_change_config opt s tid c = Done w -> Led s (one tid) w.
+  tid = 0 \/ is_stable c = true \/ covered_change s c ->
+  on_change_config opt s tid c = Done w -> Led s (one tid) w.
 Proof.
-  intros AD. unfold on_change_config. intros H.
-  apply obind_inv in H. destruct H as (l & Hl & H). apply get_ldr_inv in Hl.
-  repeat match type of H with
-         | (if ?b then wreply _ _ _ else _) = _ => destruct b; [apply Led_wreply in H; exact H|]
-         end.
-  apply wbind_inv in H. destruct H as (s1 & o1 & s2 & o2 & H1 & H2 & ->).
-  destruct AD as [->|ST].
-  - apply Led_check_config_actions0 in H1. ego; led_solve.
-  - apply (ccas_stable _ _ _ _ _ _ ST) in H1. cbn [fst snd] in H1. destruct H1 as [-> R1].
+  intros AD. destruct AD as [AD|[AD|(WF & LV & F2 & NS)]].
+  3:{ intros H. pose proof H as H'. unfold on_change_config in H'.
+      apply obind_inv in H'. destruct H' as (l & Hl & _). apply get_ldr_inv in Hl.
+      unfold leader_votes in LV. rewrite Hl in LV.
+      eapply Led_on_change_config_act; eauto using wf_config_nodes_ok. }
+  all: unfold on_change_config; intros H;
+    apply obind_inv in H; destruct H as (l & Hl & H); apply get_ldr_inv in Hl;
+    repeat match type of H with
+           | (if ?b then wreply _ _ _ else _) = _ => destruct b; [apply Led_wreply in H; exact H|]
+           end;
+    apply wbind_inv in H; destruct H as (s1 & o1 & s2 & o2 & H1 & H2 & ->).
+  - subst tid. apply Led_check_config_actions0 in H1. ego; led_solve.
+  - apply (ccas_stable _ _ _ _ _ _ AD) in H1. cbn [fst snd] in H1. destruct H1 as [-> R1].
     rewrite N.eqb_refl in H2. apply Led_do_change_config in H2.
     unfold Led, LedC in *. cbn [fst snd] in *. rewrite rt_out_app, R1. exact H2.
 Qed.
@@ -1386,6 +1929,60 @@ Qed.
 Example ex_answered : answered ex_trace = [3; 9; 5; 6; 8; 7] /\ pending ex_end = [] /\ st_closed ex_end = true.
 Proof. vm_compute. auto. Qed.
 
+(* ---------------------------------------------------------------- a changeConfig task with an action *)
+(* a cluster that grows: node 1 is bootstrapped alone (task 3) and elected, learns of nodes 2 and 3
+   (task 10, no actions), node 2 catches up, node 2 is promoted (task 11: the action is carried out in
+   the same step, the submitted configuration is not appended), the promotion commits *)
+Definition ex2_n1 := mkNode 1 [65] true [] ActNone.
+Definition ex2_cfg1 := mkConfig [ex2_n1] 0 0.
+Definition ex2_cfg2 := mkConfig [ex2_n1; mkNode 2 [66] false [] ActNone; mkNode 3 [67] false [] ActNone] 1 1.
+Definition ex2_cfg3 := mkConfig [ex2_n1; mkNode 2 [66] false [] ActPromote; mkNode 3 [67] false [] ActNone] 3 1.
+Definition ex2_events : list nevent :=
+  [ ETask (TChangeConfig 3 ex2_cfg1); EVoteResult 1 1;
+    ELeader (LChangeConfig 10 ex2_cfg2); ELeader (LReplUpdate 2 (UMatch 3));
+    ELeader (LChangeConfig 11 ex2_cfg3); ELeader (LReplUpdate 2 (UMatch 4)) ].
+Definition ex2_run := Eval vm_compute in exec ex_opt (fresh_node 1 1) ex2_events.
+Definition ex2_trace : trace := match ex2_run with Some (tr, _) => tr | None => [] end.
+Definition ex2_end : nstate := match ex2_run with Some (_, s) => s | None => fresh_node 1 1 end.
+Definition ex2_after (n : nat) : nstate :=
+  match exec ex_opt (fresh_node 1 1) (firstn n ex2_events) with Some (_, s) => s | None => fresh_node 1 1 end.
+
+Lemma wf_config_intro c :
+  u64 (c_index c) -> u64 (c_term c) -> Forall wf_node (c_nodes c) -> NoDup (map n_id (c_nodes c)) ->
+  wfstr (enc_config_data (c_nodes c)) -> wf_config c.
+Proof. unfold wf_config. auto. Qed.
+
+Ltac wf_config_solve :=
+  apply wf_config_intro;
+  [ vm_compute; reflexivity | vm_compute; reflexivity
+  | repeat constructor; vm_compute; reflexivity
+  | cbn; repeat constructor; cbn; intuition discriminate
+  | vm_compute; reflexivity ].
+
+Definition ex2_s4 : nstate := Eval vm_compute in ex2_after 4.
+Example ex2_covered : covered_change ex2_s4 ex2_cfg3.
+Proof.
+  split; [wf_config_solve|]. split; [vm_compute; reflexivity|]. split; [vm_compute; discriminate | vm_compute; reflexivity].
+Qed.
+
+Ltac ex_solve :=
+  vm_compute;
+  first [ exact I | solve [repeat constructor; cbn; intuition congruence] | solve [intuition congruence] ].
+Ltac ex2_fresh :=
+  unfold fresh; split; [ex_solve | split; [ex_solve | split; [first [right; left; vm_compute; reflexivity | right; right; exact ex2_covered | ex_solve] | ex_solve]]].
+
+Example ex2_history : nrun_fresh (fresh_node 1 1) ex2_trace ex2_end.
+Proof.
+  unfold ex2_trace, ex2_end, ex2_run.
+  repeat (eapply runf_cons; [vm_compute; reflexivity | ex2_fresh | vm_compute; intuition congruence |]).
+  apply runf_nil.
+Qed.
+
+Example ex2_answered :
+  answered ex2_trace = [3; 10; 11] /\ pending ex2_end = [] /\
+  pending (ex2_after 5) = [11] /\ c_index (st_latest (ex2_after 5)) = 4 /\ is_voter (st_latest (ex2_after 5)) 2 = true.
+Proof. vm_compute. auto 10. Qed.
+
 (* ================================================================ what is excluded, and why *)
 (* the state of the example after its first n events: n = 3 a leader holding nothing, n = 4 a leader
    holding tasks 5 and 6 *)
@@ -1424,4 +2021,55 @@ Example cex_wait_stable_0 :
 Proof.
   eexists. eexists. split; [vm_compute; reflexivity|]. split; [vm_compute; reflexivity|].
   intros (_ & _ & Z & _). vm_compute in Z. apply Z. left. reflexivity.
+Qed.
+
+(* [covered_change], no_solo: the end of the second example has voters 1 (leader) and 2; demoting 2
+   leaves the leader alone, the configuration commits inside the step, the task is answered, and
+   canChangeConfig is true again for the rest of the visit.  task_ledger holds for every oracle, also
+   one that makes the visit meet node 2 twice: the stale submitted configuration still carries the
+   Demote, the task is handed to doChangeConfig a second time and answered twice.  (With an oracle
+   without repetitions the same step answers once.) *)
+Definition cex_cfg_demote :=
+  mkConfig [ex2_n1; mkNode 2 [66] true [] ActDemote; mkNode 3 [67] false [] ActNone] 4 1.
+Example cex_change_config_solo :
+  let s := ex2_end in
+  let ev := ELeader (LChangeConfig 12 cex_cfg_demote) in
+  ledger_ok s /\ pending s = [] /\ wf_config cex_cfg_demote /\ leader_votes s /\
+  c_index (st_latest s) <= st_lastidx s /\ no_solo cex_cfg_demote (st_nid s) = false /\
+  (exists o s', model_event (mkOptions false false false 0 0 [2; 2]) s ev = Done (o, s') /\
+     map fst (lo_replies (ob_out o)) = [12; 12]) /\
+  (exists o s', model_event ex_opt s ev = Done (o, s') /\ map fst (lo_replies (ob_out o)) = [12]).
+Proof.
+  cbv zeta. split; [ex_ledger_ok|]. split; [reflexivity|]. split; [wf_config_solve|].
+  split; [vm_compute; reflexivity|]. split; [vm_compute; discriminate|]. split; [vm_compute; reflexivity|].
+  split; eexists; eexists; (split; [vm_compute; reflexivity|]); reflexivity.
+Qed.
+
+(* [covered_change], leader_votes: a leader that is not a voter refuses every configuration entry at
+   once (InProgressError) and stays free to be asked again: the action that is ready and the
+   submitted configuration both answer the task *)
+Example cex_change_config_nonvoter :
+  let s := upd_ldr ex2_s4 (fun l => l <| ld_voter := false |>) in
+  let ev := ELeader (LChangeConfig 11 ex2_cfg3) in
+  ledger_ok s /\ pending s = [] /\ no_solo ex2_cfg3 (st_nid s) = true /\ ~ leader_votes s /\
+  exists o s', model_event ex_opt s ev = Done (o, s') /\ map fst (lo_replies (ob_out o)) = [11; 11].
+Proof.
+  cbv zeta. split; [ex_ledger_ok|]. split; [reflexivity|]. split; [vm_compute; reflexivity|].
+  split; [vm_compute; intros H; specialize (H eq_refl); discriminate|].
+  eexists. eexists. split; [vm_compute; reflexivity|]. reflexivity.
+Qed.
+
+(* [covered_change], the index of Latest: were it lastLogIndex+1 (no reachable state: Latest is read
+   from the log), the entry appended for the action would get that very index, onChangeConfig would
+   conclude that no action was carried out and append the submitted configuration as well: two
+   entries carry the task, both are answered *)
+Example cex_change_config_index :
+  let c4 := mkConfig (c_nodes (st_latest ex2_s4)) 4 1 in
+  let s := ex2_s4 <| st_committed := c4 |> <| st_latest := c4 |> in
+  let ev := ELeader (LChangeConfig 11 (mkConfig (c_nodes ex2_cfg3) 4 1)) in
+  ledger_ok s /\ pending s = [] /\ leader_votes s /\ st_lastidx s = 3 /\
+  exists o s', model_event ex_opt s ev = Done (o, s') /\ map fst (lo_replies (ob_out o)) = [11; 11].
+Proof.
+  cbv zeta. split; [ex_ledger_ok|]. split; [reflexivity|]. split; [vm_compute; reflexivity|]. split; [reflexivity|].
+  eexists. eexists. split; [vm_compute; reflexivity|]. reflexivity.
 Qed.
